@@ -914,6 +914,9 @@ func (tree *MutableTree) saveFastNodeRemovals() error {
 func (tree *MutableTree) SetInitialVersion(version uint64) {
 	tree.ndb.opts.InitialVersion = version
 	tree.ndb.opts.initialVersionSet = true
+	// A hash memoised for a node that has not been saved yet (by WorkingHash or a proof)
+	// contains the version the node was expected to be saved under.
+	tree.root.resetUnsavedHashes()
 }
 
 // DeleteVersionsTo removes versions upto the given version from the MutableTree.
